@@ -176,6 +176,26 @@ pub fn gen(seed: u64, n: usize, out: &mut Out) {
             out.stat("kind_u8_fill");
             continue;
         }
+        if id % 120 == 35 {
+            // the padding loop of extend_with_edges (ensure_node_exists) runs into the u8 limit: the vacant slots pushed before
+            // the panic stay, at the head of the free list
+            for k in 0..1 + r.below(4) { ops.push(("add_node".into(), vec![k as i64 + 1])); }
+            if r.chance(40) { ops.push(("remove_node".into(), vec![0])); }
+            let mut flat = Vec::new();
+            for _ in 0..r.below(3) { flat.extend_from_slice(&[r.below(6) as i64, r.below(6) as i64, 5]); }
+            if r.chance(50) { flat.extend_from_slice(&[255, 0, 7]); } else { flat.extend_from_slice(&[r.below(8) as i64, 255, 7]); }
+            flat.extend_from_slice(&[0, 1, 9]);
+            ops.push(("extend_with_edges".into(), flat));
+            ops.push(("try_add_node".into(), vec![9]));
+            ops.push(("try_add_edge".into(), vec![r.below(8) as i64, r.below(8) as i64, 3]));
+            ops.push(("try_add_edge".into(), vec![200, 254, 3]));
+            ops.push(("try_add_node".into(), vec![10]));
+            ops.push(("remove_node".into(), vec![r.below(8) as i64]));
+            ops.push(("try_add_node".into(), vec![11]));
+            run_case(id, &[directed as i64, 0, 255, 1, 0], &ops, out);
+            out.stat("kind_u8_padding_limit");
+            continue;
+        }
         if id % 120 == 65 {
             // fill the u8 EDGE index space on a few nodes: the 256th edge must be refused and refusing must change nothing;
             // then free a slot and fill it again
